@@ -313,6 +313,19 @@ def g_points(ctx, rng, i):
             cols[j].append(_on_line(aa, bb, tt[j]))
     PC = [g.PointCollection(np.stack(cc).reshape(shape + (n,))) for cc in cols]
     _try(g.crossratio, *PC)
+    # mixed validity: one position of the collection is not collinear (the error must still be raised)
+    if n >= 3 and k > 1:
+        bad = int(rng.integers(k))
+        for _ in range(20):
+            q = gen.nonzero_vec(rng, n, 4)
+            if X.rank([X.vec(cols[0][bad]), X.vec(cols[1][bad]), X.vec(q)]) == 3:
+                break
+        else:
+            return
+        j = int(rng.integers(2, 4))
+        mixed = [list(cc) for cc in cols]
+        mixed[j][bad] = q
+        _try(g.crossratio, *[g.PointCollection(np.stack(cc).reshape(shape + (n,))) for cc in mixed])
 
 
 def g_lines(ctx, rng, i):
